@@ -20,7 +20,7 @@ COMPONENTS_REAL = ["aiocoap.protocol (Request._run, ClientObservation, Blockwise
                    "aiocoap.tokenmanager", "aiocoap.messagemanager", "aiocoap.pipe", "aiocoap.transports.udp6"]
 COMPONENTS_STUB = ["UDP socket (SimSocket) incl. error queue", "scripted notifying server (reference codec)",
                    "time.time of aiocoap.protocol (virtual wall clock)", "event loop clock (virtual)"]
-ASSUMPTIONS = ["freshness is judged on the arrival sequence (V, T) with T the virtual wall clock at delivery; the 128 s "
+ASSUMPTIONS = ["freshness is judged on the arrival sequence (V, T) with T the elapsed (monotonic) virtual time at delivery, whatever the wall clock was stepped to meanwhile; the 128 s "
                "boundary is generated at -/+ 1 ms, never exactly",
                "exact equality of the delivered sequence with the reference's accepted sub-sequence is counted, not gated; "
                "gating are: each delivery fresher than the previous one, and the last delivery equals the reference's last accepted",
@@ -28,7 +28,7 @@ ASSUMPTIONS = ["freshness is judged on the arrival sequence (V, T) with T the vi
                "ending with the same element"]
 EXPECTED_PROBES = ["reordered", "duplicate", "wraparound", "near_2_23", "time_rule_plus", "time_rule_minus", "final_response",
                    "final_error_code", "icmp_end", "not_observable", "late_notification_con", "late_notification_non",
-                   "iterator_busy_at_end", "blockwise_wrapper", "companion_observation", "peer_request_under_observation_token"]
+                   "iterator_busy_at_end", "blockwise_wrapper", "companion_observation", "peer_request_under_observation_token", "wall_clock_step"]
 
 M24 = 1 << 24
 M23 = 1 << 23
@@ -67,6 +67,11 @@ def gen(r, tier):
         pos_t = r.choice([e["at"] for e in emitted]) + r.choice([-0.001, 0.0, 0.001, 0.5])
         kind = r.weighted([(3, "final"), (2, "f404"), (1, "f500"), (2, "icmp")])
         events.append({"k": kind, "at": round(max(0.5, pos_t), 6), "con": r.chance(0.5)})
+    if r.chance(0.2):
+        # the wall clock is stepped (NTP, an operator, a VM resumed): elapsed time is what the 128 s rule is about
+        for _ in range(r.randint(1, 2)):
+            events.append({"k": "jump", "at": round(r.uniform(0.5, max(1.0, t)), 6),
+                           "by": r.choice([-3600.0, -200.0, -129.0, 129.0, 200.0, 3600.0, 86400.0])})
     events.sort(key=lambda e: e["at"])
     consumer = {"iter": r.choice([None, 0.0, 0.0, 0.05, 0.5, 3.0]), "callbacks": True}
     # a second observation of the same client at the same server (another resource, another token) with a steady
@@ -168,6 +173,13 @@ class NotifyServer(ScriptedEndpoint):
                     m = {"type": rc.CON if e.get("con") else rc.NON, "code": code, "mid": 0x4000 + i,
                          "token": msg["token"], "options": [], "payload": b"final%d" % i}
                     self.send(src, raw=rc.encode(m), fate=["at", base + e["at"]])
+                elif e["k"] == "jump":
+                    def step(by=e["by"]):
+                        self.sim.timeshim.offset += by
+                        self.sim.log("clock", "wall-clock-step", by)
+                        self.sim.probe("wall_clock_step")
+                        self.sim.net.count("fault.clock_step")
+                    self.loop.at(base + e["at"], step)
                 elif e["k"] == "icmp":
                     self.loop.at(base + e["at"], self.sim.net.icmp, src, self.addr, 111)
                     if self.scn.get("peer_req"):
